@@ -1,8 +1,11 @@
 // teardown drives the real pppoe.SessionTeardown (pkg/pppoe/teardown.go) with a real SessionManager, a real
 // pppoe.IPPool, recording callbacks for PADT / eBPF-map removal and a real loopback RADIUS accounting server.
+// The eBPF-map callback keeps a table of fast-path entries (one per session, installed when the session is made)
+// and can be made to fail (`fault ebpf on|off|once`): a failing call returns an error and leaves the entry.
 package main
 
 import (
+	"errors"
 	"fmt"
 	"math/rand"
 	"net"
@@ -73,7 +76,10 @@ type run struct {
 	pool  *pppoe.IPPool
 	acct  *acctSrv
 	names map[string]*pppoe.Session // harness name -> session object (kept after removal: "ending twice")
-	ebpf  map[string]int            // RADIUS session id -> eBPF removals
+	ebpf  map[string]int            // RADIUS session id -> eBPF-map callback calls that removed the entry
+	efail map[string]int            // RADIUS session id -> eBPF-map callback calls that returned an error
+	fp    map[string]bool           // RADIUS session id -> its fast-path entry is present
+	fault string                    // off | on | once : what the eBPF-map callback answers next
 	padt  map[string]int
 	cbMu  sync.Mutex // the callbacks run in the goroutines of parked terminations too
 	// a TerminateSession call can be parked inside its PADT callback (after the tornDown check, before cleanup)
@@ -144,7 +150,20 @@ func (r *run) snapshot() string {
 	if len(held) > 0 {
 		h = strings.Join(held, ",")
 	}
-	return fmt.Sprintf("stops=%s ebpf=%s padt=%s held=%s sess=%s", r.counts(stops), r.counts(r.ebpf), r.counts(r.padt), h, sess)
+	var fps []string
+	r.cbMu.Lock()
+	for n, s := range r.names {
+		if r.fp[s.SessionID] {
+			fps = append(fps, n)
+		}
+	}
+	r.cbMu.Unlock()
+	sort.Strings(fps)
+	fp := "-"
+	if len(fps) > 0 {
+		fp = strings.Join(fps, ",")
+	}
+	return fmt.Sprintf("stops=%s ebpf=%s padt=%s held=%s sess=%s efail=%s fp=%s", r.counts(stops), r.counts(r.ebpf), r.counts(r.padt), h, sess, r.counts(r.efail), fp)
 }
 
 func (r *run) Do(op string) string {
@@ -161,6 +180,9 @@ func (r *run) Do(op string) string {
 		r.pool = p
 		r.names = map[string]*pppoe.Session{}
 		r.ebpf = map[string]int{}
+		r.efail = map[string]int{}
+		r.fp = map[string]bool{}
+		r.fault = "off"
 		r.padt = map[string]int{}
 		r.td.SetSessionManager(r.sm)
 		r.td.SetIPPool(p)
@@ -186,8 +208,17 @@ func (r *run) Do(op string) string {
 		r.td.SetUpdateEBPFMaps(func(s *pppoe.Session, remove bool) error {
 			if remove {
 				r.cbMu.Lock()
+				defer r.cbMu.Unlock()
+				if r.fault != "off" {
+					// the map delete fails: the entry stays
+					if r.fault == "once" {
+						r.fault = "off"
+					}
+					r.efail[s.SessionID]++
+					return errors.New("bpf map delete: EBUSY")
+				}
 				r.ebpf[s.SessionID]++
-				r.cbMu.Unlock()
+				delete(r.fp, s.SessionID)
 			}
 			return nil
 		})
@@ -220,6 +251,9 @@ func (r *run) Do(op string) string {
 		}
 		s.SetState(pppoe.StateEstablished)
 		r.names[f[1]] = s
+		r.cbMu.Lock()
+		r.fp[s.SessionID] = true // the established session's fast-path entry
+		r.cbMu.Unlock()
 		return fmt.Sprintf("ok id=%d ", s.ID) + r.snapshot()
 	}
 	if r.td == nil {
@@ -289,6 +323,13 @@ func (r *run) Do(op string) string {
 		r.td.TerminateByUsername(f[1], "")
 	case "termall":
 		r.td.TerminateAll(pppoe.TerminateCauseAdminReboot, "")
+	case "fault": // fault ebpf on|off|once : the eBPF-map callback returns an error (every call / no call / the next call)
+		if len(f) != 3 || f[1] != "ebpf" || (f[2] != "on" && f[2] != "off" && f[2] != "once") {
+			return "badop"
+		}
+		r.cbMu.Lock()
+		r.fault = f[2]
+		r.cbMu.Unlock()
 	case "authfail": // what pppoe.Server does when a PAP exchange is rejected
 		s := r.names[f[1]]
 		if s == nil {
@@ -313,8 +354,21 @@ func (comp) Gen(rg *rand.Rand, tier string, emit func([]string)) {
 		made := 0
 		var parked []string
 		ln := 3 + rg.Intn(12)
+		// the eBPF-map callback is made to fail in about half of the sequences.  While a `once` may still be armed
+		// no operation that tears down SEVERAL sessions in Go-map order is generated (which of them would meet the
+		// fault is not determined): termall / termuser run with the fault on or off
+		faulty := rg.Intn(2) == 0
+		mode := "off"
 		for j := 0; j < ln; j++ {
 			x := rg.Intn(100)
+			if faulty && rg.Intn(5) == 0 {
+				mode = hx.Pick(rg, []string{"on", "on", "once", "once", "off"})
+				seq = append(seq, "fault ebpf "+mode)
+				continue
+			}
+			if mode == "once" && x >= 85 {
+				x = 45 + rg.Intn(40) // term / termid / termmac instead
+			}
 			// two terminations at once: a TerminateSession call held inside its PADT while others run
 			if made > 0 && rg.Intn(6) == 0 {
 				if len(parked) < 2 && rg.Intn(2) == 0 {
